@@ -167,7 +167,9 @@ func (s *sess) stallAt(point string, k, waitMs, requests int, v2, group bool) (a
 	switch point {
 	case "proxy-header":
 		h := proxyHeader(v2)
-		if k = clampK(k, len(h), 0); k > 0 {
+		k = clampK(k, len(h), 0)
+		s.rest = h[k:]
+		if k > 0 {
 			t, werr := s.write(h[:k])
 			s.ev(t, "d")
 			err = werr
@@ -178,7 +180,9 @@ func (s *sess) stallAt(point string, k, waitMs, requests int, v2, group bool) (a
 				return
 			}
 		}
-		if k = clampK(k, len(e.hello), 0); k > 0 {
+		k = clampK(k, len(e.hello), 0)
+		s.rest = e.hello[k:]
+		if k > 0 {
 			t, werr := s.write(e.hello[:k])
 			s.ev(t, "d")
 			err = werr
@@ -214,6 +218,7 @@ func (s *sess) stallAt(point string, k, waitMs, requests int, v2, group bool) (a
 				_, head = s.requestHead(0, 0)
 			}
 			k = clampK(k, len(head), 1)
+			s.rest = head[k:]
 			t, werr := s.write(head[:k])
 			s.ev(t, "d")
 			err = werr
@@ -223,6 +228,7 @@ func (s *sess) stallAt(point string, k, waitMs, requests int, v2, group bool) (a
 			anchor = t
 		}
 	case "mitm-peek":
+		s.rest = e.hello
 		anchor, err = s.connectMITM()
 	case "mitm-hello":
 		var t200 time.Time
@@ -233,6 +239,7 @@ func (s *sess) stallAt(point string, k, waitMs, requests int, v2, group bool) (a
 			time.Sleep(time.Duration(waitMs) * time.Millisecond)
 		}
 		k = clampK(k, len(e.hello), 1)
+		s.rest = e.hello[k:]
 		t, werr := s.write(e.hello[:k])
 		s.ev(t, "d")
 		err = werr
@@ -324,12 +331,29 @@ const marginMs = 60
 
 // judgeClose compares one observed close (or its absence) with the model and evaluates the clauses.
 func (e *env) judgeClose(ctx *core.Ctx, r *rec, cs any, s *sess, point string, limitMs int, anchor time.Time, closed bool, at, until time.Time, accept int64) {
+	e.judgeCloseWithin(ctx, r, cs, s, point, limitMs, anchor, closed, at, until, accept, e.slackUsFor(limitMs))
+}
+
+// slackUsFor: the upper slack allowed on a close under a limit of limitMs. It is ALWAYS smaller than the limit
+// itself (by twice the clock granularity): a connection whose expired wait is started over - the time-out
+// handed to the connection loop as an error it does not close on, the deadline armed anew when the loop comes
+// round - is closed after TWO periods of the limit at the earliest, and limit + slack < 2 x limit - eps puts
+// that beyond the bound whatever the limit is (Theorems/C15 c15_verdict_excludes_second_period).
+func (e *env) slackUsFor(limitMs int) int64 {
+	slackUs := e.slack.Microseconds()
+	if one := int64(limitMs)*1000 - 2*epsUs; limitMs > 0 && one < slackUs {
+		slackUs = one
+	}
+	return slackUs
+}
+
+// judgeCloseWithin: judgeClose with the upper slack given (until must not be earlier than anchor + limit + slack).
+func (e *env) judgeCloseWithin(ctx *core.Ctx, r *rec, cs any, s *sess, point string, limitMs int, anchor time.Time, closed bool, at, until time.Time, accept int64, slackUs int64) {
 	O, A := s.us(at), s.us(anchor)
 	elapsed := O - A
 	if !closed {
 		elapsed = s.us(until) - A + 1
 	}
-	slackUs := e.slack.Microseconds()
 	mo := askDeadline(ctx.Model, e.conf, accept, s.events)
 	// Did the client play its script in time? Decided from the client's own time stamps and the model
 	// alone (never from what the implementation did): the stall must be in the intended phase, also
@@ -777,6 +801,7 @@ type job struct {
 	dribble *dribbleCase
 
 	bodystall *bodyStallCase
+	late      *lateCase
 }
 
 func (e *env) do(ctx *core.Ctx, j job) {
@@ -803,6 +828,8 @@ func (e *env) do(ctx *core.Ctx, j job) {
 		e.runDribble(ctx, j.dribble)
 	case j.bodystall != nil:
 		e.runBodyStall(ctx, j.bodystall)
+	case j.late != nil:
+		e.runLate(ctx, j.late)
 	}
 }
 
@@ -897,6 +924,8 @@ func Run(ctx *core.Ctx) {
 		"(pipelined, waiting in the proxy's reader while a fast or slow origin answers), right after the previous response, or after an idle gap; peers DRIBBLING a PROXY header (v1, v2), ClientHello, request head or the " +
 		"ClientHello inside an intercepted tunnel byte by byte with pauses of a quarter to a half of the limit for longer than limit + slack (cut at phaseStart + limit), a probe next to them; " +
 		"stalls inside a request body with ReadTimeout set on every stacking (Content-Length and chunked, k framed body bytes incl. 0, also after served requests and behind a pipelined head): 504 at t0 + ReadTimeout, closed one idle timeout later (F49); " +
+		"the upper slack of every judged close is below the limit itself (a close after two periods of the limit is late); plans with limits of 600-800 ms per stacking: every stall point held for 1.5 periods " +
+		"(closed by 1.4), then the bytes that would have been progress (rest of the header / hello / head, a complete request, a ClientHello after the intercepted CONNECT's 200) are sent and must be answered with nothing; " +
 		"every case is non-trivial; distinct = distinct (configuration, case parameters)")
 	ctx.Assume("wall clock sampled: close instants and probe latencies are measured on the monotonic clock of the harness process; lower side sharp (1 ms), upper side with slack")
 	for _, c := range core.LoadCorpus(ctx.Root, "C15") {
@@ -974,6 +1003,16 @@ func Run(ctx *core.Ctx) {
 		}
 		slowOnly(conf, fmt.Sprintf("up%d", i), r)
 	}
+	// one period, not two (late.go): every stacking with limits of 600-800 ms, each stall point of the stacking held
+	// for one and a half periods, then the bytes that would have been progress
+	for si := 0; si < ctx.N(1, 2); si++ {
+		for _, st := range stacks {
+			r := ctx.Rng.Sub()
+			conf := Conf{Stack: st, L: genLateLimits(r)}
+			tag := fmt.Sprintf("late-%s%d", st, si)
+			plans = append(plans, plan{conf, genLateJobs(ctx, r, conf, func(kind string, i int) string { return fmt.Sprintf("%s-%s%d", tag, kind, i) })})
+		}
+	}
 	for i, p := range plans {
 		if i < 3 && len(p.jobs) > 0 {
 			j := p.jobs[0]
@@ -1000,6 +1039,8 @@ func Run(ctx *core.Ctx) {
 				ctx.Sample(j.dribble)
 			case j.bodystall != nil:
 				ctx.Sample(j.bodystall)
+			case j.late != nil:
+				ctx.Sample(j.late)
 			}
 		}
 	}
@@ -1108,6 +1149,9 @@ func Replay(ctx *core.Ctx, raw json.RawMessage) {
 	case "bodystall":
 		j.bodystall = &bodyStallCase{}
 		json.Unmarshal(raw, j.bodystall)
+	case "late":
+		j.late = &lateCase{}
+		json.Unmarshal(raw, j.late)
 	case "warmup":
 		j.group = &groupCase{Kind: "group", Conf: k.Conf, ID: "warmup"}
 	default:
